@@ -809,7 +809,7 @@ def concat_from_sequence(node: ir.Node, op, state: OptimizerState) -> ReturnValu
     return None
 
 
-@register("SplitToSequence")
+@register("SplitToSequence", version=(18, None))
 def split_to_sequence(node: ir.Node, op, state: OptimizerState) -> ReturnValue:
     """Rewriting pattern.
 
